@@ -172,6 +172,9 @@ func TestC13(t *testing.T) {
 		r.Check(t, "mappings", hx.N(80, 2000), func(rt *rapid.T) {
 			g := &wf.G{T: rt, Rare: rapid.Bool().Draw(rt, "rare")}
 			w := g.Workflow()
+			if rapid.Bool().Draw(rt, "shufflekeys") {
+				g.ShuffleKeys(w.Root)
+			}
 			lay := g.Layout()
 			src := ye.Emit(w.Root, lay)
 			if ds, err := lint(src); err != nil || len(ds) > 0 {
